@@ -27,7 +27,12 @@ ASSUMPTIONS = ['pandas arithmetic of two Series on one index is pointwise with N
                '(no common column) fed on into an operator with a fill method, ONE-column frames as operands of min_/max_ (mmx lines: statement only, known finding '
                'C08-A2), negative or fractional exponents, df_std, float rounding; aggregates over a mix of frames and Series / one-column frames are checked '
                'against the statement only (aggx, known finding C08-A1). Modelled since round g2: column policies lj/rj, DataFrame operands of pow_ / comparisons / min_ / max_',
-               'aggregates: a scalar operand counts at every timestamp / in every cell, a NaN scalar never (PygModel/Ops.lean aggregate, OpsF.lean aggregateFS, sampled)']
+               'aggregates: a scalar operand counts at every timestamp / in every cell, a NaN scalar never (PygModel/Ops.lean aggregate, OpsF.lean aggregateFS, sampled)',
+               '"lists of operands reduce left to right": the MODEL (opList / opListF) copies the wrappers - add_ / mul_ are the left fold, sub_ / div_ reduce each side with add_ / mul_ first; '
+               'the CLAUSE (left fold of the binary operator over as_list(a) + as_list(b), for all four operators) is checked on redx lines against binary calls of the implementation: '
+               'sub_ / div_ fail it for a list on the left (known finding C08-A3, theorems sub/div_list_left_not_left_fold) and agree for a list on the right by value '
+               '(sub_div_right_list_left_fold). sub_ / div_ / pow_ have no default b: a list alone (list-none) is generated for add_ / mul_ only; under columns = "oj" the neutral element '
+               'is applied per step of the fold (oj_neutral_per_step)']
 S = 4
 nan = float('nan')
 VALS = [0.0, 0.0, 1.0, -1.0, 2.0, 0.5, -0.25, 3.0, 1.5]
@@ -379,7 +384,45 @@ def gen_mm_mixed(rng, tier):
         yield dict(tag='mmx/%s' % shape, lines=['(ops mmx %s %s)' % (rng.choice(['min', 'max']), enc_in(xs))])
 
 
+def gen_reduce(rng, tier):
+    """"lists of operands reduce left to right" checked against the statement itself (redx lines, `check_reduce`): the call with
+    a list on the left, on the right or on both sides must equal the LEFT FOLD of the binary operator over `as_list(a) + as_list(b)`.
+    add_ / mul_ do (they are `reducer`); sub_ / div_ reduce each side with add_ / mul_ first - known finding C08-A3.
+    Index policies ij / oj and column policies ij / oj (the quantifier's), every fill method; with columns = 'ij' every frame has
+    column b (the chain through the object-dtype `pd.Series({})` of frames without a common column is not modelled, see notes)."""
+    n = 260 if tier == 'quick' else 6000
+    for _ in range(n):
+        op = rng.choice(OPS)
+        how, m, ch = rng.choice(['ij', 'oj']), rng.choice(METHODS), rng.choice(['ij', 'oj'])
+        shape = rng.choice(['list-x', 'list-x', 'x-list', 'list-list'] + (['list-none'] if op in ('add', 'mul') else []))
+        na = 1 if shape == 'x-list' else rng.choice([2, 2, 3])
+        nb = 0 if shape == 'list-none' else 1 if shape == 'list-x' else rng.choice([1, 2, 2]) if shape == 'x-list' else rng.choice([1, 2])
+        k = na + nb
+        kind = rng.choice(['ts', 'ts', 'df', 'df', 'mix'])
+        days, rel = rand_fdays(rng, k)
+        if kind == 'ts':
+            cs = [None] * k
+            kinds = ['ts'] * k
+        else:
+            cs, crel = rand_colsets(rng, k)
+            if ch == 'ij':
+                cs = [c if 'b' in c else ['b', 'c'] for c in cs]
+            kinds = ['df'] * k if kind == 'df' else [rng.choice(['df', 'df', 'ts', 'df1']) for _ in range(k)]
+        if rng.random() < 0.25:
+            kinds[rng.randrange(k)] = 'num'           # scalars inside the lists / on either side
+        xs = []
+        for j in range(k):
+            vals = DIVS if (op == 'div' and j > 0) else VALS      # every divisor of the left fold is a power of two: nothing is rounded
+            xs.append(rand_frame(rng, days[j], vals, cs[j]) if kinds[j] == 'df' else rand_frame(rng, days[j], vals, rng.choice(ONECOL)) if kinds[j] == 'df1'
+                      else rand_series(rng, days[j], vals) if kinds[j] == 'ts' else rng.choice(vals + [1, 0.25]))
+        a = xs[0] if shape == 'x-list' else xs[:na]
+        b = None if nb == 0 else xs[na] if (shape == 'list-x' or (nb == 1 and rng.random() < 0.5)) else xs[na:]
+        yield dict(tag='redx/%s/%s/%s/%s/%s/%s' % (op, shape, kind, how, m, ch),
+                   lines=['(ops redx %s %s %s %s %s %s)' % (op, enc_in(a), enc_in(b), how, m, ch)])
+
+
 def generate(rng, tier):
+    yield from gen_reduce(rng, tier)
     yield from gen_mm_frames(rng, tier)
     yield from gen_mm_mixed(rng, tier)
     yield from gen_series(rng, tier)
@@ -518,6 +561,9 @@ def run_line(state, sx):
         if not A.same_tree(xs, before):
             return 'violation input-modified'
         return 'ok ' + enc_out(res, sort_columns=True)
+    if op == 'redx':       # lists of operands: the call against the left fold of the binary operator (the statement itself)
+        bad = check_reduce(args[0], dec_in(args[1]), dec_in(args[2]), args[3], A.dec_method(args[4]), args[5])
+        return 'violation ' + bad if bad else 'ok redx-checked'
     if op == 'mmx':        # min_ / max_ with one-column frames: checked against the statement itself
         bad = check_mm_mixed(args[0], dec_in(args[1]))
         return 'violation ' + bad if bad else 'ok mmx-checked'
@@ -531,7 +577,7 @@ def run_line(state, sx):
 
 
 def compare(case, i, line, ir, mr):
-    if line.startswith('(ops frames ') or line.startswith('(ops aggx ') or line.startswith('(ops mmx '):
+    if line.startswith(('(ops frames ', '(ops aggx ', '(ops mmx ', '(ops redx ')):
         return ir if ir.startswith('violation') else None
     if proto.same_reply(ir, mr):
         # same_reply compares (D ..) nodes as sets: the ORDER of the result columns of the operators (theorems
@@ -737,6 +783,72 @@ def check_mm_mixed(name, xs):
 
 A1_NAN_ROW = 'is NaN / 0 throughout although an operand has data there'
 A1_ODD_COLUMNS, A1_ODD_COLUMNS_END = ': the result has columns ', ' that no operand has'
+A3_NOT_LEFT = ' of a list of operands is not the left fold of the binary '
+A3_SIDES_FIRST = '; it IS each side reduced first: '
+
+
+def _as_list(x):
+    return [] if x is None else list(x) if isinstance(x, list) else [x]
+
+
+def _fold(f, xs):
+    res = xs[0]
+    for x in xs[1:]:
+        res = f(res, x)
+    return res
+
+
+def check_reduce(op, a, b, how, method, cols):
+    """"lists of operands reduce left to right": `op_(a, b)` with lists on either side against the left fold of the BINARY `op_` over
+    `as_list(a) + as_list(b)` (binary calls only, so the reference does not pass through the list handling it checks)"""
+    f = _fn(op + '_')
+    kw = dict(join=how, method=method, columns=cols)
+    xs = _as_list(a) + _as_list(b)
+    before = A.snapshot_tree(xs)
+    try:
+        res = f(a, **kw) if b is None else f(a, b, **kw)
+    except Exception as e:
+        return '%s_ on lists raised %s: %s' % (op, type(e).__name__, str(e)[:100])
+    if not A.same_tree(xs, before):
+        return 'input-modified'
+    try:
+        fold = _fold(lambda x, y: f(x, y, **kw), xs)
+    except Exception as e:
+        return '%s_ on lists returned, the left fold of the binary %s_ raised %s: %s' % (op, op, type(e).__name__, str(e)[:100])
+    got, want = _enc_any(res), _enc_any(fold)
+    if got == want:
+        return None
+    msg = '%s_%s%s_: got %s, the left fold gives %s' % (op, A3_NOT_LEFT, op, got[:300], want[:300])
+    if op in ('sub', 'div'):
+        g = _fn('add_' if op == 'sub' else 'mul_')
+        try:
+            alt = f(_fold(lambda x, y: g(x, y, **kw), _as_list(a)), _fold(lambda x, y: g(x, y, **kw), _as_list(b)), **kw)
+            if _enc_any(alt) == got:
+                msg += A3_SIDES_FIRST + ('(a1 + a2 ..) - (b1 + b2 ..)' if op == 'sub' else '(a1 * a2 ..) / (b1 * b2 ..)')
+        except Exception:
+            pass
+    return msg
+
+
+def _enc_any(r):
+    try:
+        return enc_out(r)
+    except proto.Unencodable:
+        return 'unencodable %s' % type(r).__name__
+
+
+def sub_div_sides_first(f):
+    """C08-A3: sub_ / div_ with a LIST of two or more operands on a side, whose result is not the left fold but exactly
+    `sub_(add_ of the left operands, add_ of the right operands)` resp. `div_(mul_ .., mul_ ..)` (the detail says so: it was
+    recomputed with binary calls).  Any other deviation from the left fold - add_ / mul_, another value, a raise - stays a violation"""
+    line = f.case['lines'][0]
+    if not line.startswith(('(ops redx sub ', '(ops redx div ')):
+        return False
+    sx = proto.parse(line)
+    sides = [x for x in (sx[3], sx[4]) if isinstance(x, list) and x and x[0] == 'L' and len(x) >= 3]
+    return bool(sides) and A3_NOT_LEFT in f.detail and A3_SIDES_FIRST in f.detail
+
+
 A2_BOTH_NAMES = ' of one-column operands has the columns '
 A2_NO_OBJECTS = '_ raised ValueError: No objects to concatenate'
 
@@ -918,4 +1030,4 @@ def laws(rng, tier, ctx):
 
 
 shrink = W.shrink
-MATCHERS = {'agg_mixed_operands': agg_mixed_operands, 'mm_one_column_frames': mm_one_column_frames}
+MATCHERS = {'agg_mixed_operands': agg_mixed_operands, 'mm_one_column_frames': mm_one_column_frames, 'sub_div_sides_first': sub_div_sides_first}
